@@ -24,6 +24,8 @@ namespace verif
         std::size_t  region    = std::size_t(1) << 31; // 2 GiB of address space, untouched pages cost nothing
         std::size_t  bump      = 1 << 16;
         std::size_t  gap       = 0;                    // bytes left between consecutive blocks
+        bool         descending = false;               // hand out blocks at falling addresses (never reused either)
+        std::size_t  down      = std::size_t(1) << 30;
         std::size_t  skew      = 0;                    // blocks asked with alignment <= skew start at an address = skew (mod 2*skew)
         long         calls     = 0;                    // allocation calls so far
         long         fail_at   = -1;                   // fail the allocation call with this index (1-based)
@@ -76,6 +78,15 @@ namespace verif
                 throw std::bad_alloc();
             }
             std::size_t al = align < 16 ? 16 : align;
+            if (descending)
+            {
+                down = (down - size - gap) & ~(al - 1);
+                std::size_t o = down;
+                blocks.push_back({o, size, align, true});
+                ++total_alloc;
+                std::snprintf(buf, sizeof buf, " U+ %zu %zu %zu", size, align, o); oplog += buf;
+                return base + o;
+            }
             bump = (bump + gap + al - 1) & ~(al - 1);
             if (skew && align <= skew) bump += skew;
             if (bump + size > region - (2 << 20)) { std::fprintf(stderr, "upstream region exhausted\n"); std::exit(3); }
